@@ -247,6 +247,15 @@ func (s *C13) Run(c *scen.Ctx) {
 		}
 		s.universe = append(s.universe, mkEp(i, w, wt))
 	}
+	if simrt.Draw(4, "c13.collide") == 3 {
+		// two hosts that share a point on the Ketama ring (one pair per ~90 000 points in the wild)
+		pair := [][2]string{{"10.20.4.85", "10.20.7.30"}, {"10.1.2.90", "10.1.4.55"}, {"10.1.1.139", "10.1.4.120"}}[simrt.Draw(3, "c13.collidepair")]
+		for k := 0; k < 2; k++ {
+			s.universe[k].Host = pair[k]
+			s.universe[k].Key = s.universe[k].String()
+		}
+		c.Count("probe.hosts_sharing_a_ring_point", 1)
+	}
 	c.Describe("strategy", s.kind)
 	c.Describe("weighted", s.weighted)
 	var us []string
